@@ -77,6 +77,8 @@ PROPS['C14'] = {
 
 PROPS['C11'] = {
     'assumptions': [
+        'Scenario B: the real thread_pool_bulk_sender/operation_state: connect, start, set_value, task_function (drain left, steal right, do_work_chunk, finish) over a stand-in pool (env_pool.hpp) that records spawned tasks; '
+        'the harness runs the spawned worker tasks sequentially in an arbitrary order after start() (worker interleavings and the exception channel are not covered); n <= NMAX, W constant per query.',
         'Scenario A (arithmetic): real bulk_receiver::get_chunk_size, init_queue and the index queue; the operation state is built field by field (no thread pool); the three lines of '
         'set_value combining them are repeated in the kernel. W in [1,64] symbolic for get_chunk_size; one query per constant W for the tiling (division by a constant).',
         'Termination of get_chunk_size is an obligation (unwinding assertion at 34 iterations: the chunk size doubles, so more than 33 iterations means it wrapped to 0 and the loop never ends).',
@@ -87,6 +89,8 @@ PROPS['C11'] = {
         dict(name='chunk_u64_all', kernel='C11_bulk.cpp', prefix='chunk_', mode='seq', inline=20000, unwind=34, lower_defs=['-DSHAPE=std::uint64_t'], params=[0, 0], unwind_obligation=True),
         dict(name='chunk_u64_le2p31', kernel='C11_bulk.cpp', prefix='chunk_', mode='seq', inline=20000, unwind=34, lower_defs=['-DSHAPE=std::uint64_t'], params=[0, 1], unwind_obligation=True),
         dict(name='chunk_i32_le2p31', kernel='C11_bulk.cpp', prefix='chunk_', mode='seq', inline=20000, unwind=34, lower_defs=['-DSHAPE=std::int32_t'], params=[0, 1], unwind_obligation=True),
+        dict(name='bulk_run_W1_n20', kernel='C11_bulk_run.cpp', prefix='run_', mode='seq', inline=20000, unwind=10, lower_defs=['-DNMAX=20'], params=[1], covers=[0], timeout=1800),
+        dict(name='bulk_run_W2_n36', kernel='C11_bulk_run.cpp', prefix='run_', mode='seq', inline=20000, unwind=12, lower_defs=['-DNMAX=36'], params=[2], covers=[0], timeout=7000, tiers=('thorough',)),
     ] + [
         dict(name='tile_u32_W%d' % w, kernel='C11_bulk.cpp', prefix='tile_', mode='seq', inline=20000, unwind=34, lower_defs=['-DSHAPE=std::uint32_t'], params=[w], covers=[0],
              partial_loops_assume=True, timeout=1200, tiers=('quick', 'thorough') if w in (1, 2, 3) else ('thorough',)) for w in (1, 2, 3, 4, 5, 7, 8, 16)
@@ -126,5 +130,16 @@ PROPS['C18'] = {
         dict(name='function_hist_k4', kernel='C18_function.cpp', prefix='fn_', mode='seq', inline=20000, unwind=26, lower_defs=['-DHIST_K=4'], covers=[0], timeout=2400),
         dict(name='unique_function_hist_k4', kernel='C18_function.cpp', prefix='fn_', mode='seq', inline=20000, unwind=26, lower_defs=['-DHIST_K=4', '-DUNIQUE'], covers=[0], timeout=2400),
         dict(name='function_hist_k6', kernel='C18_function.cpp', prefix='fn_', mode='seq', inline=20000, unwind=26, lower_defs=['-DHIST_K=6'], covers=[0], timeout=10000, tiers=('thorough',)),
+    ],
+}
+
+PROPS['C12'] = {
+    'assumptions': [
+        'Only the recycling part (K3) of the property is covered: real thread_data.cpp (rebind_base, exit callbacks, interruption flags), thread_data_stackless::rebind and the stackless coroutine; '
+        'the first incarnation is driven through an arbitrary history of the public thread_data API and runs to completion before it is rebound.',
+        'Context switch assembly, stack allocation and stack-size selection (K1/K2) are NOT covered by any check.',
+    ],
+    'queries': [
+        dict(name='recycle_stackless', kernel='C12_recycle.cpp', prefix='rec_', mode='seq', inline=20000, unwind=4, covers=[0], timeout=1800),
     ],
 }
